@@ -24,6 +24,9 @@ func (r *Reader) ReadMetadata() (err error) {
 		b.close()
 	case typeUUID:
 		err = r.readUUIDBox(&b)
+		// readUUIDBox returns early when its content cannot be read; the box is left behind all
+		// the same (closing a box that is already closed does nothing)
+		b.close()
 	default:
 		if logLevelInfo() {
 			logInfo().Object("box", b).Send()
